@@ -211,8 +211,8 @@ CHECKS = {
          'witnesses for the pre-fix code (F6 direction, F10, F14). Each run compares convex_hull outputs on '
          'integer/dyadic point sets EXACTLY with the model in Coq and evaluates containment / box extent / overlap '
          'symmetry and bounds on image, group and reference catalogs across the sky.',
-         'Spherical geometry (polygons, union, intersection, areas; the arcsec->radian half of F6, the F11 rotation '
-         'order) is external: measured only. Known findings K2 and K3 (spherical_geometry multi_union; summed '
+         'Spherical geometry (polygons, union, intersection, areas; the arcsec->radian half of F6) is external: '
+         'measured only (the F11 rotation order is modelled and proved in SkyRot.v). Known findings K2 and K3 (spherical_geometry multi_union; summed '
          'member-wise overlaps). Trusted: Coq kernel + vm_compute, python harness.',
          'DESIGN.md section 6 (C16)'),
  'C20': ('Coq proof (shoelace area of the image of the unit square under an affine map = |det J|; scales by |det M| '
